@@ -76,5 +76,7 @@ if __name__ == '__main__':
         main(sys.argv[2:], rename={'A': 'E', 'B': 'F'})
     elif sys.argv[1] == '--wave5':
         main(sys.argv[2:], rename={'A': 'G', 'B': 'H'})
+    elif sys.argv[1] == '--wave6':
+        main(sys.argv[2:], rename={'A': 'I', 'B': 'J'})
     else:
         main(sys.argv[1:])
